@@ -287,3 +287,33 @@ def r_typed_index(ctx, fq):
                       % (show(s[2])[:120], show(bad[0])[:120] if bad else ''),
                       inputs='the empty strand')
     run.floor('R-TYPED', 'alphabet subscripts in %s' % fq, n, 1)
+
+
+def r_typed_mix(ctx, fq):
+    """(c) a numpy scalar must not meet an unbounded Python integer (c ** f(parameter)) in % // * + -"""
+    run = ctx.run
+    f = ctx.p.func(fq)
+    n = 0
+    seen = set()
+
+    def unbounded_power(t):
+        t0 = t
+        while is_call(t0, 'builtins.int') and len(t0[2]) == 1:
+            t0 = t0[2][0]
+        if t0[0] == 'bin' and t0[1] == '**' and t0[2][0] == 'c' and isinstance(t0[2][1], int) and t0[2][1] >= 2:
+            return any(x[0] == 'v' and x[2] == 'P' for x in walk_term(t0[3]))
+        return False
+    for nd, s in ctx.all_subterms(f):
+        if s[0] == 'bin' and s[1] in ('%', '//', '*', '+', '-') and s not in seen:
+            for a, b in ((s[2], s[3]), (s[3], s[2])):
+                if unbounded_power(b):
+                    seen.add(s)
+                    n += 1
+                    ty = pytype(ctx, f, a)
+                    run.check(ty != 'np', 'R-TYPED', f, 'numpy-scalar-meets-unbounded-int#%d' % n, nd.lineno,
+                              'the other operand of the parameter-sized power is a Python int',
+                              "%s combines the numpy value %s with %s, a Python integer that exceeds 64 bits once the parameter "
+                              "is large enough: numpy raises OverflowError (Python int too large to convert to C long)"
+                              % (f.name, show(a)[:70], show(b)[:40]), extracted=show(s)[:120],
+                              inputs='check lengths of 33 or more (4 ** 32 does not fit a C long)')
+    run.floor('R-TYPED', 'parameter-sized powers in %s' % fq, n, 1)
